@@ -28,6 +28,11 @@ CONFIGS = [  # name, preimports, env overrides, stdout kind
     ("latin1-stdout", "cli", {"PYTHONIOENCODING": "latin-1", "LC_ALL": "POSIX", "PYTHONHASHSEED": "random", "TZ": "Asia/Tokyo"}, "pipe"),
     ("closed-stdout", "root_signing", {"PYTHONHASHSEED": "4242", "TZ": "America/Los_Angeles"}, "closed"),
     ("preimported-backends", "hashes", {"PYTHONIOENCODING": "utf-8", "PYTHONHASHSEED": "7"}, "devnull"),
+    # a legacy (non-UTF-8) locale: open() and the standard streams default to ASCII
+    ("legacy-locale", "none", {"LC_ALL": "C", "PYTHONUTF8": "0", "PYTHONCOERCECLOCALE": "0", "PYTHONHASHSEED": "11"}, "pipe"),
+    # variables that build and packaging environments commonly export
+    ("build-env", "json_decimal", {"SOURCE_DATE_EPOCH": "1500000000", "TZ": "Pacific/Kiritimati", "PYTHONINTMAXSTRDIGITS": "0", "PYTHONOPTIMIZE": "1",
+                                   "COLUMNS": "20", "LANG": "tr_TR.UTF-8", "PYTHONHASHSEED": "12", "NO_COLOR": "1", "CI": "true", "HOME": "/nonexistent"}, "devnull"),
 ]
 
 
@@ -39,7 +44,7 @@ def run_job(run, job: dict, config, cwd=None, timeout=600):
     job = dict(job, preimports=PREIMPORT_SETS[pre], result=rp, config=name)
     with open(jp, "w") as f:
         json.dump(job, f)
-    e = {k: v for k, v in os.environ.items() if k not in ("PYTHONIOENCODING", "LC_ALL", "LANG", "TZ")}
+    e = {k: v for k, v in os.environ.items() if k not in ("PYTHONIOENCODING", "LC_ALL", "LANG", "TZ", "PYTHONUTF8")}
     e.update(env)
     e["PYTHONPATH"] = HARNESS
     e["VERIF_REPO"] = REPO
